@@ -67,7 +67,45 @@ fn sweep_roots(tier: Tier, w: &World, s0: &Store) -> Vec<(String, HState)> {
         go(&mut s, Action::Deposit { u: 1, b: 1, amt: c1, up_to_limit: None });
         go(&mut s, Action::Borrow { u: 1, b: 0, amt: d0 });
         if ok {
-            roots.push((name.to_string(), HState { s, clock_devs: 0, price_devs: 0, closes: vec![0; nb], forged: true }));
+            roots.push((name.to_string(), HState { s: s.clone(), clock_devs: 0, price_devs: 0, closes: vec![0; nb], forged: true }));
+            // fraction-directed variants: u0's deposit (bank 0) and debt (bank 1) are re-forged so that their exact
+            // values end in a chosen fraction of a native unit - just above a whole number, either side of the
+            // program's 0.0001 dust threshold, one half, just below the next whole number. Full withdrawals must
+            // still round down and full repayments up for every one of them.
+            if name == "sv1" || name == "sv4_3" {
+                let tiny = I80F48::from_bits(1 << 18);
+                for (fname, frac) in [("f_tiny", tiny), ("f_00005", I80F48::from_num(0.00005)), ("f_00015", I80F48::from_num(0.00015)), ("f_half", I80F48::from_num(0.5)), ("f_almost1", I80F48::ONE - tiny)] {
+                    let mut t = s.clone();
+                    let acct = w.users[0].account;
+                    for (b, is_asset) in [(0usize, true), (1usize, false)] {
+                        let bk = w.banks[b].key;
+                        let bank = world::bank(&t, &bk);
+                        let sv: I80F48 = if is_asset { bank.asset_share_value.into() } else { bank.liability_share_value.into() };
+                        let mut delta = I80F48::ZERO;
+                        world::edit_account(&mut t, &acct, |a| {
+                            if let Some(bal) = a.lending_account.balances.iter_mut().find(|x| x.active != 0 && x.bank_pk == bk) {
+                                let old: I80F48 = if is_asset { bal.asset_shares.into() } else { bal.liability_shares.into() };
+                                let value = (old * sv).floor() + frac;
+                                let new = value / sv;
+                                delta = new - old;
+                                if is_asset {
+                                    bal.asset_shares = new.into();
+                                } else {
+                                    bal.liability_shares = new.into();
+                                }
+                            }
+                        });
+                        world::edit_bank(&mut t, &bk, |x| {
+                            if is_asset {
+                                x.total_asset_shares = (I80F48::from(x.total_asset_shares) + delta).into();
+                            } else {
+                                x.total_liability_shares = (I80F48::from(x.total_liability_shares) + delta).into();
+                            }
+                        });
+                    }
+                    roots.push((format!("{name}:{fname}"), HState { s: t, clock_devs: 0, price_devs: 0, closes: vec![0; nb], forged: true }));
+                }
+            }
         }
     }
     roots
@@ -140,6 +178,7 @@ pub fn stale_model(_tier: Tier, world: &str) -> Hist {
     let (w, s0) = c03_world(world);
     let mut roots: Vec<(String, HState)> = standard_roots(&w, &s0, false).into_iter().filter(|(n, _)| n == "R1" || n == "R7").collect();
     roots.extend(tokenless_roots(&w, &s0));
+    roots.extend(emissions_root(&w, &s0));
     let mut alpha = Alphabet::standard(vec![0, 1], vec![0, 1]);
     alpha.liquidate = false;
     alpha.bankruptcy = false;
